@@ -320,74 +320,66 @@ pub fn create_dir_all(path: &UnixStr) -> Result<()> {
     Ok(())
 }
 
+/// `mkdir` which reports something already being at `path` as `Ok(Some(that error))`
+#[inline]
+fn mkdir_or_exists(path: &UnixStr) -> core::result::Result<Option<rusl::Error>, rusl::Error> {
+    match rusl::unistd::mkdir(path, Mode::from(0o755)) {
+        Ok(()) => Ok(None),
+        Err(e) if e.code == Some(Errno::EEXIST) => Ok(Some(e)),
+        Err(e) => Err(e),
+    }
+}
+
 #[inline]
 unsafe fn write_all_sub_paths(
     buf: &mut [u8],
     raw: *const u8,
 ) -> core::result::Result<(), rusl::Error> {
     let len = buf.len();
-    let mut it = 1;
-    loop {
-        // Iterate down
-        let ind = len - it;
-        if ind == 0 {
-            break;
-        }
-
-        let byte = buf[ind];
-        if byte == b'/' {
+    // We know the actual length is len + 1 and null terminated
+    let full = UnixStr::from_bytes_unchecked(core::slice::from_raw_parts(raw, len + 1));
+    // The `EEXIST` of the most recent `mkdir`, if it found something already there
+    let mut exists = None;
+    // Iterate down to the longest prefix that exists or can be created, 0 if there is none
+    let mut ind = len - 1;
+    while ind > 0 {
+        if buf[ind] == b'/' {
             // Swap slash for null termination to make a valid path
             buf[ind] = NULL_BYTE;
-
-            return match rusl::unistd::mkdir(
-                UnixStr::from_bytes_unchecked(&buf[..=ind]),
-                Mode::from(0o755),
-            ) {
-                // Successfully wrote, traverse down
-                Ok(()) => {
-                    // Replace the null byte to make a valid path concatenation
-                    buf[ind] = b'/';
-                    for i in ind + 1..len {
-                        // Found next
-                        if buf[i] == b'/' {
-                            // Swap slash for null termination to make a valid path
-                            buf[i] = NULL_BYTE;
-                            rusl::unistd::mkdir(
-                                UnixStr::from_bytes_unchecked(&buf[..=i]),
-                                Mode::from(0o755),
-                            )?;
-                            // Swap back to continue down
-                            buf[i] = b'/';
-                        }
-                    }
-                    // if we end on a slash we don't have to write the last part
-                    if unsafe { raw.add(len - 1).read() } == b'/' {
-                        return Ok(());
-                    }
-                    // We know the actual length is len + 1 and null terminated, try write full
-                    rusl::unistd::mkdir(
-                        UnixStr::from_bytes_unchecked(core::slice::from_raw_parts(raw, len + 1)),
-                        Mode::from(0o755),
-                    )?;
-                    Ok(())
+            let res = mkdir_or_exists(UnixStr::from_bytes_unchecked(&buf[..=ind]));
+            // Put the slash back to make a valid path concatenation
+            buf[ind] = b'/';
+            match res {
+                Ok(found) => {
+                    exists = found;
+                    break;
                 }
-                Err(e) => {
-                    if let Some(code) = e.code {
-                        if code == Errno::ENOENT {
-                            it += 1;
-                            // Put slash back, only way we end up here is if we tried to write
-                            // previously replacing the slash with a null-byte
-                            buf[ind] = b'/';
-                            continue;
-                        } else if code == Errno::EEXIST {
-                            return Ok(());
-                        }
-                    }
-                    Err(e)
-                }
-            };
+                Err(e) if e.code == Some(Errno::ENOENT) => {}
+                Err(e) => return Err(e),
+            }
         }
-        it += 1;
+        ind -= 1;
+    }
+    // Traverse back up, creating what is missing
+    for i in ind + 1..len {
+        // Found next
+        if buf[i] == b'/' {
+            // Swap slash for null termination to make a valid path
+            buf[i] = NULL_BYTE;
+            exists = mkdir_or_exists(UnixStr::from_bytes_unchecked(&buf[..=i]))?;
+            // Swap back to continue down
+            buf[i] = b'/';
+        }
+    }
+    // if we end on a slash we don't have to write the last part
+    if raw.add(len - 1).read() != b'/' {
+        exists = mkdir_or_exists(full)?;
+    }
+    // Something was already there, it could be something else than a directory
+    if let Some(e) = exists {
+        if !Metadata(rusl::unistd::stat(full)?).is_dir() {
+            return Err(e);
+        }
     }
     Ok(())
 }
